@@ -38,6 +38,7 @@ type chains struct {
 	qBlocks []*blockchain.Block
 	facts   facts
 	finP    []uint32          // finalized height of the responder chain cut at each height
+	finQ    []uint32          // C04SYNC: finalized height of the requester chain cut at each height
 	tok     map[string]string // real id -> token
 	refs    int
 }
@@ -166,15 +167,24 @@ func (c *chains) build() {
 		finP = append(finP, p.Finalized())
 	}
 	c.finP = finP
-	qOwn, err := q.Extend(prm.Q-prm.F, func(i int, o *node.BlockOpts) {
-		if i == 0 {
-			o.BeforeEvents = []*blockchain.Event{{Module: "fork", Name: "q", Data: []byte{0x71}}}
+	// C04SYNC: the requester's own blocks are built one by one to record the finalized height after each
+	finQ := append([]uint32{}, finP[:prm.F+1]...)
+	var qOwn []*blockchain.Block
+	for i := 0; i < prm.Q-prm.F; i++ {
+		first := i == 0
+		bs, err := q.Extend(1, func(_ int, o *node.BlockOpts) {
+			if first {
+				o.BeforeEvents = []*blockchain.Event{{Module: "fork", Name: "q", Data: []byte{0x71}}}
+			}
+		})
+		if err != nil {
+			c.err = fmt.Errorf("extend requester: %w", err)
+			return
 		}
-	})
-	if err != nil {
-		c.err = fmt.Errorf("extend requester: %w", err)
-		return
+		qOwn = append(qOwn, bs...)
+		finQ = append(finQ, q.Finalized())
 	}
+	c.finQ = finQ
 	c.p = p
 	c.pBlocks = append(append([]*blockchain.Block{p.Genesis}, common...), pOwn...)
 	c.qBlocks = append(append([]*blockchain.Block{p.Genesis}, common...), qOwn...)
